@@ -240,7 +240,7 @@ theorem bandAmps_scale (a : Rat) (amp : List Rat) (rows : List SampleRow) :
     cases meanRat (pySlice amp ((r0.lastTrough :: List.map (fun x => x.nextTrough) (r0 :: rest)).getD i 0)
       ((r0.lastTrough :: List.map (fun x => x.nextTrough) (r0 :: rest)).getD (i + 1) 0)) <;> rfl
 
-theorem shapePeak_scale (a : Rat) (x amp : List Rat) (rows : List SampleRow) :
+theorem shapePeak_scale (a : Rat) (_ha : 0 < a) (x amp : List Rat) (rows : List SampleRow) :
     shapePeak (scaleSig a x) (scaleSig a amp) rows = (shapePeak x amp rows).map fun l => l.map (ShapeRow.scaleVolts a) := by
   unfold shapePeak
   rw [mapM_map_of_pointwise (shapeOfRow x) (shapeOfRow (scaleSig a x)) (ShapeRow.scaleVolts a) (shapeOfRow_scale a x),
